@@ -79,7 +79,12 @@ def expected_results(data, ops):
     return out
 
 
-def lockstep_case(rng, size, maxreq, seed, ops, bias, faults=None):
+def model_bufsize(bufsize):
+    """BufferedFile._set_mode: <= 0 unbuffered, 1 line buffered (FLAG_BUFFERED with the default 8192), N > 1 buffered"""
+    return 0 if bufsize <= 0 else (8192 if bufsize == 1 else bufsize)
+
+
+def lockstep_case(rng, size, maxreq, seed, ops, bias, faults=None, bufsize=-1):
     data = rng.randbytes(size)
     sess = L.DetSession(L.HashShortReads(seed) if seed is not None else None)
     try:
@@ -93,7 +98,7 @@ def lockstep_case(rng, size, maxreq, seed, ops, bias, faults=None):
                 return faults.get(i)
 
             sess.fs.read_fault = rfault
-        f = sess.client.open("/f", "rb")
+        f = sess.client.open("/f", "rb", bufsize=bufsize)
         f.MAX_REQUEST_SIZE = maxreq
         res = sess.run_program(f, ops, rng, bias)
         f._closed = True
@@ -148,30 +153,55 @@ def threaded_case(ctx, rng, size, thorough):
             do_reads(rng.randrange(0, 3))
         desc["plan"] = [list(p) if p[0] != "readv" else ["readv", [list(c) for c in p[1]], p[2]] for p in plan]
 
+        if rng.random() < 0.4:
+            # read or readline first (read-ahead in _rbuffer), then a readv whose blocks start at / around _realpos
+            k = rng.randrange(0, len(plan) + 1)
+            pre = ("readline",) if rng.random() < 0.5 else ("read", rng.choice([1, 10, 100, 5000]))
+            plan[k:k] = [pre, ("readv_rp", [(rng.choice([0, 0, 1, 100]), rng.choice([1, 100, 40000]))
+                                            for _ in range(rng.randrange(1, 4))], rng.choice([None, 1, 2]))]
+        desc["plan"] = [list(p) if p[0] not in ("readv", "readv_rp") else [p[0], [list(c) for c in p[1]], p[2]]
+                        for p in plan]
+
         def prog():
-            out = []
+            obs = []
             for p in plan:
                 if p[0] == "seek":
                     f.seek(p[1])
                 elif p[0] == "read":
-                    out.append(f.read(p[1]))
+                    pos = f.tell()
+                    obs.append(("read", pos, p[1], f.read(p[1])))
+                elif p[0] == "readline":
+                    pos = f.tell()
+                    obs.append(("readline", pos, None, f.readline()))
                 elif p[0] == "prefetch":
                     f.prefetch(p[1], p[2])
                 else:
-                    out.extend(f.readv(p[1], p[2]))
-            return out
+                    chunks = p[1] if p[0] == "readv" else [(f._realpos + d, l) for d, l in p[1]]
+                    obs.append(("readv", chunks, None, list(f.readv(chunks, p[2]))))
+            return obs
 
         r = sess.call(prog)
-        # reference (buffered modes read ahead but must return the same bytes)
-        exp = expected_results(data, [p if p[0] != "prefetch" else ("nop",) for p in plan])
         if r[0] == "hang":
             return desc, ("read-hangs", "the call can never return: reader waits for a response, nothing in flight")
         if r[0] == "exc":
             return desc, ("read-raises:" + L.exc_kind(r[1]), repr(r[1]))
-        if r[1] != exp:
-            bad = next((i for i, (a, b) in enumerate(zip(r[1], exp)) if a != b), None)
-            return desc, ("read-wrong-bytes", "result %s: got %d bytes, want %d bytes" % (
-                bad, len(r[1][bad]) if bad is not None else -1, len(exp[bad]) if bad is not None else -1))
+        for kind_, a1, a2, got in r[1]:
+            if kind_ == "read":
+                want = data[a1:] if a2 is None else data[a1:a1 + a2]
+                if got != want:
+                    return desc, ("read-wrong-bytes", "read(%r) at %d: got %d bytes, want %d bytes" % (a2, a1, len(got), len(want)))
+            elif kind_ == "readline":
+                rest = data[a1:]
+                i = rest.find(b"\n")
+                want = rest if i < 0 else rest[:i + 1]
+                if got != want:
+                    return desc, ("readline-wrong-bytes", "readline at %d: got %d bytes, want %d bytes" % (a1, len(got), len(want)))
+            else:
+                want = [data[o:o + l] for o, l in a1]
+                if got != want:
+                    bad = next(i for i, (x, y) in enumerate(zip(got, want)) if x != y)
+                    return desc, ("readv-wrong-bytes", "readv block %d (offset %d, length %d) differs from the file "
+                                  "(chunks %r)" % (bad, a1[bad][0], a1[bad][1], a1))
         return desc, None
     finally:
         sess.close()
@@ -181,7 +211,8 @@ def run(ctx):
     import paramiko.sftp_file as sf
 
     threading.excepthook = lambda a: None  # prefetch threads die noisily when a session is torn down
-    ctx.rule = ("lockstep: file 0..700 bytes, MAX_REQUEST_SIZE in {7,16,64,32768}, programs of prefetch/readv "
+    ctx.rule = ("lockstep: file 0..700 bytes, MAX_REQUEST_SIZE in {7,16,64,32768}, bufsize in {-1,0,1,5,40,300}, reads "
+                "followed by readv blocks placed at the end of the read-ahead, programs of prefetch/readv "
                 "(overlapping, unordered, beyond-EOF, zero-length chunks; caps None,1,2,3,4,8) followed by seeks and "
                 "reads, short-read policy hashed from (seed, offset, length), schedule picked by the PRNG with five "
                 "biases; distinct = distinct (file size, maxreq, program, schedule trace); non-trivial = at least one "
@@ -233,20 +264,31 @@ def run(ctx):
         if ci == 4:  # designed: the only prefetch request fails, the waiting read raises
             size, maxreq, seed, bias, faults = 8, 4, None, "random", {0: 4}
             ops = [("prefetch", 4, None), ("read", 4), ("read", 4)]
-        data, res, trace = lockstep_case(rng, size, maxreq, seed, ops, bias, faults)
+        bufsize = rng.choice([-1, -1, 0, 1, 5, 40, 300])
+        if rng.random() < 0.35:
+            # reads first, then a readv whose blocks start where the read-ahead ended / overlap it
+            k = rng.randrange(0, len(ops) + 1)
+            ops = ops[:k] + [("read", rng.choice([1, 3, maxreq, rng.randrange(1, 60)])),
+                             ("readv_rp", [(rng.choice([0, 0, 1, 7]), rng.randrange(1, 40)) for _ in range(rng.randrange(1, 4))],
+                              rng.choice([None, 1, 2]))] + ops[k:]
+        if ci == 5:  # designed: buffered file, read-ahead, then a readv block that starts where the read-ahead ended
+            size, maxreq, seed, bias, faults, bufsize = 300, 32768, None, "random", None, 100
+            ops = [("prefetch", 300, None), ("readv", [(0, 50), (100, 50)], None)]
+        data, res, trace = lockstep_case(rng, size, maxreq, seed, ops, bias, faults, bufsize)
         case = {"size": size, "maxreq": maxreq, "short_read_seed": seed, "bias": bias,
-                "read_faults": faults,
+                "read_faults": faults, "bufsize": bufsize,
                 "ops": [list(o) for o in ops], "file": hx(data) if size <= 64 else "prng(%d)" % size}
         nacts = sum(1 for t in trace if t.startswith("a "))
         nontriv = any(t.startswith("a r") for t in trace) and any(t.startswith("a serve") for t in trace)
         ctx.case((size, maxreq, repr(ops), hash(tuple(trace))), nontriv)
         ctx.dist("lockstep:bias:" + bias)
         ctx.dist("lockstep:maxreq:%d" % maxreq)
+        ctx.dist("lockstep:bufsize:%d" % bufsize)
         ctx.dist("lockstep:actions", nacts)
         for k, v in res.get("stats", {}).items():
             ctx.dist("sched:" + k, v)
         for o in ops:
-            ctx.dist("op:" + o[0] + (":capped" if o[0] in ("readv", "prefetch") and o[2] is not None else ""))
+            ctx.dist("op:" + o[0] + (":capped" if o[0] in ("readv", "readv_rp", "prefetch") and o[2] is not None else ""))
         if ci % 60 == 0:
             ctx.sample({"case": case, "trace_head": trace[:40]})
         # oracle: every completed read returned the file's bytes at the position it was issued from
@@ -272,10 +314,17 @@ def run(ctx):
                     break
             if raised and not faults:
                 ctx.fail("read-raises:" + raised[0][2][1], case, "no read fault was injected, yet a read raised")
+            for chunks, blocks in res.get("readv", []):
+                want_b = [data[o:o + l] for o, l in chunks]
+                if blocks != want_b:
+                    bad = next(i for i, (a, b) in enumerate(zip(blocks, want_b)) if a != b)
+                    ctx.fail("readv-wrong-bytes", case, "readv block %d (offset %d, length %d): got %s want %s" % (
+                        bad, chunks[bad][0], chunks[bad][1], hx(blocks[bad])[:40], hx(want_b[bad])[:40]))
+                    break
         if res["thread_exc"]:
             ctx.fail("prefetch-thread-raises:" + L.exc_kind(res["thread_exc"][0]), case, repr(res["thread_exc"][0]))
         # model requests
-        reqs.append("init %s %d" % (hx(data), maxreq))
+        reqs.append("init %s %d %d" % (hx(data), maxreq, model_bufsize(bufsize)))
         checks.append((len(reqs) - 1, "ok", "ok", ci))
         for t in trace:
             if t.startswith("a "):
@@ -338,15 +387,17 @@ META = {
               "the number of a request still in flight (request_numbers_unique); a blocked reader — waiting for a "
               "response, or spinning in _async_response because the answer arrived before the thread registered the "
               "extent — always has an enabled peer (waiting_reader_not_stuck) and the peers' steps are bounded by a "
-              "measure (bounded_wait). cap = 0 is outside the property's range: the code's test never passes, the model "
+              "measure (bounded_wait). BufferedFile's read-ahead is part of the model (_pos, _rbuffer, buffered modes): "
+              "read_ahead_consistent; a readv block is seek+read, starts at its own offset whatever was buffered and "
+              "keeps it until it completes (readv_block_starts_at_its_offset, running_read_keeps_its_start). cap = 0 is outside the property's range: the code's test never passes, the model "
               "starves the same way (cap_zero_starves_witness) and the lockstep run replays it. Tied to "
               "sftp_file.py/sftp_client.py by a deterministic lockstep run of the real code under PRNG-chosen "
               "schedules: every action enabled, enabled sets, bookkeeping state and returned bytes compared per step."),
     "note": ("Trusted: Lean kernel + 3 standard axioms; the lockstep scheduler (park points = the model's shared "
              "accesses; code between two park points touches only task-private state or runs under the lock the model "
              "treats as atomic); honest server (DATA carries 1..n true bytes; EOF iff offset >= size; answers in "
-             "request order; a failed request carries an error status instead); BufferedFile in unbuffered mode in the "
-             "model (buffered modes only in the threaded oracle); after a read has raised, the harness clears "
+             "request order; a failed request carries an error status instead); readline is exercised by the threaded "
+             "oracle only (the model has read/read-all/seek/readv blocks, unbuffered and buffered); after a read has raised, the harness clears "
              "BufferedFile's read buffer (the model drops what the failed read had collected); the no-hang theorems "
              "assume caps None or >= 1."),
     "technique": "Lean 4 proof (inductive invariants over an interleaving semantics, request-number uniqueness by "
